@@ -95,7 +95,7 @@ class Report:
             seen_known.add(hit['key'])
             out_lines.append('KNOWN-FINDING: property=%s %s -- %s' % (self.pid, hit['key'], hit['what']))
         replay_paths = []
-        if not self.broken:
+        if True:
             for i, v in enumerate(new_viol):
                 rp = os.path.join(VERIF, 'evidence', 'replay', '%s-%d.json' % (self.pid, i))
                 with open(rp, 'w') as fh:
@@ -142,7 +142,7 @@ class Report:
             },
             'assumptions': self.assumptions,
             'wall_s': round(time.time() - self.t0, 3),
-            'violations': len(new_viol) if not self.broken else 0,
+            'violations': len(new_viol),
         }
         ev['coverage'].update(self.extra)
         with open(os.path.join(VERIF, 'evidence', '%s.json' % self.pid), 'w') as fh:
@@ -150,13 +150,13 @@ class Report:
         if not quiet:
             for ln in out_lines:
                 print(ln)
-        if self.broken:
-            if not quiet:
-                for b in self.broken:
-                    print('ANALYSIS-BROKEN property=%s %s' % (self.pid, b))
-            return 2
+        if self.broken and not quiet:
+            for b in self.broken:
+                print('ANALYSIS-BROKEN property=%s %s' % (self.pid, b))
         if new_viol:
-            return 1
+            return 1          # a refuted obligation stands regardless of what else could not be analysed
+        if self.broken:
+            return 2
         if not quiet:
             print('OK property=%s obligations=%d discharged=%d rules=%s known=%d wall=%.1fs'
                   % (self.pid, total, discharged, ','.join(rules), len(seen_known), time.time() - self.t0))
